@@ -24,6 +24,7 @@ import copy
 import inspect
 import json
 import os
+import random
 import subprocess
 import sys
 import time
@@ -1147,6 +1148,27 @@ def repair(spec, obj, twin, sigs):
                 mine = [getattr(g, "__name__", "") for g in obj.inflows]
 
 
+VIA_MODEL = [False]       # set per case: overrides of nodes and arcs handed to the model, not to the component
+
+
+def via_model(obj, oo):
+    """the route of an `overrides:` block: Model.add_overrides finds the node or arc by type and name and hands the entry on"""
+    from wsimod.arcs.arcs import Arc
+    from wsimod.nodes.nodes import Node
+    from wsimod.orchestration.model import Model
+    if isinstance(obj, Node):
+        m = Model()
+        m.add_instantiated_nodes([obj])
+        ty = next(t for t, d in m.nodes_type.items() if obj.name in d)
+        m.add_overrides({"nodes": {obj.name: dict(oo, name=obj.name, type_=ty)}})
+    elif isinstance(obj, Arc):
+        m = Model()
+        m.arcs[obj.name] = obj
+        m.add_overrides({"arcs": {obj.name: dict(oo, name=obj.name, type_=type(obj).__name__)}})
+    else:
+        obj.apply_overrides(oo)
+
+
 def apply(obj, o, sigs, problems, label):
     import io
     import contextlib
@@ -1157,7 +1179,7 @@ def apply(obj, o, sigs, problems, label):
             import warnings
             with warnings.catch_warnings():
                 warnings.simplefilter("ignore")
-                obj.apply_overrides(oo)
+                via_model(obj, oo) if VIA_MODEL[0] else obj.apply_overrides(oo)
     except RuntimeError as ex:
         did = getattr(obj, "data_input_dict", None)
         if "Not recognised format for data_input_dict" in str(ex) and isinstance(did, dict) and did:
@@ -1218,7 +1240,8 @@ def gen_case(r, key, spec, polset, select="random"):
         if ok(p, o1):
             break
     script = spec["script"](r, spec["cls"])
-    return {"key": key, "polset": polset, "params": p, "overrides": [o1] + ([o2] if o2 else []), "script": script}
+    return {"key": key, "polset": polset, "params": p, "overrides": [o1] + ([o2] if o2 else []), "script": script,
+            "via_model": random.Random(f"{key}:{polset}:{len(script)}:{sorted(o1)}").random() < 0.5}
 
 
 def forced_cases(r, specs):
@@ -1349,7 +1372,9 @@ def run_pass(case, spec, controls, pristine, exact, script, tol):
         leaked = check_defaults(pristine)
         if leaked:
             problems.append(f"constructing {case['key']} changed default arguments {[k for k, _ in leaked]}")
-        # ---- overrides: a gets each dict once, b gets the last one three times
+        # ---- overrides: a gets each dict once, b gets the last one three times; for every other case the overrides of
+        # nodes and arcs travel through Model.add_overrides (an `overrides:` block), for the rest they go to the component
+        VIA_MODEL[0] = bool(case.get("via_model"))
         q = p
         for o in ovs:
             apply(a.target, o, sigs, problems, "first application")
